@@ -52,3 +52,20 @@ Proof.
   - repeat constructor; cbn; try lia.
   - vm_compute. reflexivity.
 Qed.
+
+(* the extracted checker accepts the model's observation of every script in the quantifier (whole link frames, noise, 'no data yet'
+   answers or overrun reports, then the two probe packets), on each link: on an implementation that behaves like the model the C06
+   check cannot raise an alarm.  c06_case is the case line the harness writes (link, probe block, device tokens). *)
+Require Import RP.Glue.Wire RP.Glue.StreamLink RP.Lemmas.GlueC06.
+Theorem C06_checker_accepts_model_usart : forall items p1 p2 np toks, Forall bitem_ok items -> wfp p1 -> wfp p2 -> small p1 -> small p2 ->
+  map utok_of toks = concat (map uitem_toks items) ++ concat (map (fun f => map UB (link_frame (enc_of f))) (frag_spec p1 ++ frag_spec p2)) ->
+  ok_C06 (c06_case 1 np p1 p2 toks) (run_RCV (c06_case 1 np p1 p2 toks)) = [].
+Proof. exact ok_C06_usart_accepts_model. Qed.
+Theorem C06_checker_accepts_model_serial : forall items p1 p2 np toks, Forall bitem_ok items -> wfp p1 -> wfp p2 -> small p1 -> small p2 ->
+  map stok_of toks = concat (map sitem_toks items) ++ concat (map frames_tokens_serial (frag_spec p1 ++ frag_spec p2)) ->
+  ok_C06 (c06_case 2 np p1 p2 toks) (run_RCV (c06_case 2 np p1 p2 toks)) = [].
+Proof. exact ok_C06_serial_accepts_model. Qed.
+Theorem C06_checker_accepts_model_can : forall items p1 p2 np toks, Forall citem_ok items -> wfp p1 -> wfp p2 -> small p1 -> small p2 ->
+  ctoks_of toks = Some (concat (map citem_toks items) ++ concat (map frames_tokens_can (frag_spec p1 ++ frag_spec p2))) ->
+  ok_C06 (c06_case 0 np p1 p2 toks) (run_RCV (c06_case 0 np p1 p2 toks)) = [].
+Proof. exact ok_C06_can_accepts_model. Qed.
